@@ -601,7 +601,35 @@ _MODELS = {
     ".lower": lambda s: _txt(s).lower(), ".upper": lambda s: _txt(s).upper(), ".casefold": lambda s: _txt(s).casefold(),
     ".strip": lambda s, *a: _txt(s).strip(*a), ".lstrip": lambda s, *a: _txt(s).lstrip(*a), ".rstrip": lambda s, *a: _txt(s).rstrip(*a),
     ".replace": lambda s, a, b, *c: _txt(s).replace(a, b, *c), ".find": lambda s, *a: _txt(s).find(*a),
+    # struct on concrete buffers
+    "ext:struct.unpack": lambda f, d: _struct.unpack(_txt(f), _buf(d)), "ext:struct.unpack_from": lambda f, d, o=0: _struct.unpack_from(_txt(f), _buf(d), _int(o)),
+    "ext:struct.calcsize": lambda f: _struct.calcsize(_txt(f)), "ext:struct.Struct": lambda f: _StructObj(_txt(f)),
+    ".unpack_from": lambda s_, d, o=0: _sobj(s_).st.unpack_from(_buf(d), _int(o)), ".unpack": lambda s_, d: _sobj(s_).st.unpack(_buf(d)),
+    "ext:int.from_bytes": lambda d, order="big", **kw: int.from_bytes(_buf(d), order, **kw),
 }
+
+import struct as _struct  # noqa: E402
+
+
+class _StructObj:
+    def __init__(self, fmt):
+        self.fmt = fmt
+        self.st = _struct.Struct(fmt)
+
+    def __repr__(self):
+        return f"Struct({self.fmt!r})"
+
+
+def _sobj(x):
+    if not isinstance(x, _StructObj):
+        raise TypeError("not a Struct")
+    return x
+
+
+def _buf(x):
+    if not isinstance(x, (bytes, bytearray)):
+        raise TypeError("not a buffer")
+    return bytes(x)
 
 
 def _txt(x):
